@@ -141,6 +141,9 @@ def run_async(sc, max_rounds=120):
     async def main():
         from tornado.ioloop import IOLoop
         tl = IOLoop.current()
+        if sc.get('dask') is not None:
+            from . import fakedask
+            fakedask.install(fakedask.FakeClient(lp, rec, sc['dask']))
         build_graph(ctx, {'asynchronous': True})
         tasks = [asyncio.ensure_future(producer(pid, p, tl))
                  for pid, p in enumerate(sc['producers'])]
@@ -174,6 +177,9 @@ def run_async(sc, max_rounds=120):
         _finish(res, rec, ctx, lp)
         simloop.dispose_loop(lp)
         _reset_streamz()
+        if sc.get('dask') is not None:
+            from . import fakedask
+            fakedask.uninstall()
     return res
 
 
